@@ -8,14 +8,17 @@ type Case struct {
 	Op     string          `json:"op,omitempty"`   // "" (query) | mutation
 	Tree   []Sel           `json:"tree,omitempty"` // structured form of the selection set (shrinkable)
 	Seed   uint64          `json:"seed"`
-	PAsync int             `json:"p_async"` // % of invocations resolved through Go or Batch
-	PBatch int             `json:"p_batch"` // % of the asynchronous ones that use Batch
-	PErr   int             `json:"p_err"`   // % failing
-	PNull  int             `json:"p_null"`  // % returning null
-	PGate  int             `json:"p_gate"`  // % of Go tasks held by a harness gate (others: seeded delay)
-	PPre   int             `json:"p_pre"`   // % of gated tasks released *before* the idle handler is entered
-	RoundK int             `json:"round_k"` // at most this many gated tasks are released per idle round (>=1)
-	Procs  int             `json:"procs"`   // GOMAXPROCS
+	PAsync int             `json:"p_async"`          // % of invocations resolved through Go or Batch
+	PBatch int             `json:"p_batch"`          // % of the asynchronous ones that use Batch
+	PErr   int             `json:"p_err"`            // % failing
+	PNull  int             `json:"p_null"`           // % returning null
+	PGate  int             `json:"p_gate"`           // % of Go tasks held by a harness gate (others: seeded delay)
+	PPre   int             `json:"p_pre"`            // % of gated tasks released *before* the idle handler is entered
+	RoundK int             `json:"round_k"`          // at most this many gated tasks are released per idle round (>=1)
+	Procs  int             `json:"procs"`            // GOMAXPROCS
+	MaxN   int             `json:"max_n,omitempty"`  // list lengths / edge counts are drawn from 0..MaxN (default 3)
+	WS     bool            `json:"ws,omitempty"`     // serve over the graphql-ws WebSocket subprotocol (graphqlws.go)
+	Events int             `json:"events,omitempty"` // WS subscriptions: number of source events
 	Over   map[string]Spec `json:"over,omitempty"`
 	// WatchdogMs: the request is declared deadlocked after this long (0 = default 20 s).
 	WatchdogMs int    `json:"watchdog_ms,omitempty"`
